@@ -23,6 +23,7 @@ RULE = (
     "incl. every unit impulse; B: prescribed stocks increasing, decreasing, hump, exact zero in a middle year, "
     "exact zeros at the end, integer dtype, each unit impulse) x (solver manual / lapack). Non-trivial = "
     "well-conditioned configuration actually computed. Distinct by construction."
+    " Also: Fortran-ordered arrays handed in, sub-annual grids, 18001 and 70000 labels."
 )
 ASSUMPTIONS = [
     "tolerance max(1e-9, 1e-14 x product of reciprocal first-interval survival shares) relative; measured residual ~2e-15 on well-conditioned tables",
